@@ -79,6 +79,9 @@ pub struct Report {
     pub level: String,
     pub start: Instant,
     pub assumptions: Vec<String>,
+    /// merge into the evidence file already written by another engine for the same property
+    pub append: bool,
+    pub engine: String,
 }
 
 fn load_known() -> Vec<Value> {
@@ -129,6 +132,8 @@ impl Report {
             level: level.into(),
             start: Instant::now(),
             assumptions: vec![],
+            append: cli.flag("--append"),
+            engine: std::env::args().next().and_then(|a| std::path::Path::new(&a).file_name().map(|f| f.to_string_lossy().to_string())).unwrap_or_default(),
         }
     }
 
@@ -156,15 +161,50 @@ impl Report {
                     .collect::<Vec<_>>()),
             );
         }
+        let mut wall = self.start.elapsed().as_secs_f64();
+        let mut nviol = new_v.len();
+        let mut assumptions = self.assumptions.clone();
+        let path0 = format!("{}/evidence/{}.json", VERIF_DIR, self.prop);
+        if self.append {
+            if let Some(old) = std::fs::read_to_string(&path0).ok().and_then(|s| serde_json::from_str::<Value>(&s).ok()) {
+                let oc = old.get("coverage").cloned().unwrap_or(json!({}));
+                let sum = |k: &str| oc.get(k).and_then(|x| x.as_u64()).unwrap_or(0) + cov.get(k).and_then(|x| x.as_u64()).unwrap_or(0);
+                let mut samples = oc.get("samples").and_then(|x| x.as_array()).cloned().unwrap_or_default();
+                samples.extend(cov.get("samples").and_then(|x| x.as_array()).cloned().unwrap_or_default());
+                let mut merged = json!({
+                    "evaluations": sum("evaluations"),
+                    "distinct_nontrivial": sum("distinct_nontrivial"),
+                    "rule": format!("PART 1: {} || PART 2 ({}): {}", oc.get("rule").and_then(|x| x.as_str()).unwrap_or(""), self.engine, cov.get("rule").and_then(|x| x.as_str()).unwrap_or("")),
+                    "samples": samples,
+                    "exhaustive": oc.get("exhaustive").and_then(|x| x.as_bool()).unwrap_or(false) && cov.get("exhaustive").and_then(|x| x.as_bool()).unwrap_or(false),
+                    "parts": [oc.clone(), cov.clone()],
+                });
+                for k in ["states", "transitions", "traces_validated_against_impl"] {
+                    if oc.get(k).is_some() || cov.get(k).is_some() {
+                        merged[k] = json!(sum(k));
+                    }
+                }
+                cov = merged;
+                wall += old.get("wall_s").and_then(|x| x.as_f64()).unwrap_or(0.0);
+                nviol += old.get("violations").and_then(|x| x.as_u64()).unwrap_or(0) as usize;
+                for a in old.get("assumptions").and_then(|x| x.as_array()).cloned().unwrap_or_default() {
+                    if let Some(a) = a.as_str() {
+                        if !assumptions.iter().any(|x| x == a) {
+                            assumptions.insert(0, a.to_string());
+                        }
+                    }
+                }
+            }
+        }
         let ev = json!({
             "property_id": self.prop,
             "tier": self.tier,
             "seed": self.seed,
             "level": self.level,
             "coverage": cov,
-            "assumptions": self.assumptions,
-            "wall_s": self.start.elapsed().as_secs_f64(),
-            "violations": new_v.len(),
+            "assumptions": assumptions,
+            "wall_s": wall,
+            "violations": nviol,
         });
         let dir = format!("{}/evidence", VERIF_DIR);
         let _ = std::fs::create_dir_all(&dir);
@@ -200,8 +240,8 @@ impl Report {
             if n >= 10 {
                 break;
             }
-            let fname = rdir.join(format!("{}-{}.json", self.tier, n));
-            let body = json!({"property": self.prop, "key": v.key, "desc": v.desc, "replay": v.replay});
+            let fname = rdir.join(format!("{}-{}-{}.json", self.tier, self.engine, n));
+            let body = json!({"property": self.prop, "engine": self.engine, "key": v.key, "desc": v.desc, "replay": v.replay});
             let _ = std::fs::write(&fname, serde_json::to_string_pretty(&body).unwrap());
             let short: String = v.desc.chars().take(500).collect();
             println!("DETAIL property={} key={} {}", self.prop, v.key, short);
